@@ -88,16 +88,20 @@ def _run_merged_one(c):
     return out
 
 
-def run_merged(V, tier, only=''):
+def start_merged(tier, only=''):
+    """Starts the E2 workers (they run next to the E1 obligations)."""
     import concurrent.futures as cf
-    import json
-    import os
     cfgs = [c for c in merged_configs(tier) if only in _cfg_id(c)]
+    ex = cf.ThreadPoolExecutor(max_workers=max(1, min(len(cfgs), 8)))
+    return cfgs, [ex.submit(_run_merged_one, c) for c in cfgs]
+
+
+def run_merged(V, tier, cfgs, futures):
+    import json
     if not cfgs:
         return
     driver.log(f'C20 {tier}: {len(cfgs)} merged-encoding configurations (engine E2)')
-    with cf.ThreadPoolExecutor(max_workers=min(len(cfgs), 8)) as ex:
-        results = list(ex.map(_run_merged_one, cfgs))
+    results = [f.result() for f in futures]
     summary = []
     for c, out in zip(cfgs, results):
         cid = _cfg_id(c)
@@ -142,10 +146,11 @@ def run_merged(V, tier, only=''):
 def run(tier, only=''):
     V = driver.Verdicts('C20', tier)
     obs = [o for o in obligations(tier) if only in o.id]
+    cfgs, futures = start_merged(tier, only)
     driver.log(f'C20 {tier}: {len(obs)} CrossHair obligations')
     for ob, r in zip(obs, xhair.run_all(obs, log=driver.log)):
         V.add_xhair(ob, r)
-    run_merged(V, tier, only)
+    run_merged(V, tier, cfgs, futures)
     merged = getattr(V, 'extra_merged', [])
     return V.finish(
         level='other',
